@@ -346,3 +346,593 @@ Proof.
 Qed.
 
 End Events.
+
+(* ================================================================== *)
+(* Every run of the loop: trajectories are well-formed, no Python-level *)
+(* failure, the bookkeeping invariant holds in every visited state.     *)
+From EoNV Require Import SampP.
+
+Lemma kinsert_in : forall V (kv x : key * V) l, In x (kinsert kv l) -> x = kv \/ In x l.
+Proof.
+  intros V kv x l. induction l as [|h t IH]; cbn [kinsert]; intro H.
+  - destruct H as [H|[]]. left. symmetry. exact H.
+  - destruct (kltb (fst kv) (fst h)).
+    + destruct H as [H|H]; [left; symmetry; exact H|right; exact H].
+    + destruct H as [H|H]; [right; left; exact H|].
+      destruct (IH H) as [E|E]; [left; exact E|right; right; exact E].
+Qed.
+
+Lemma ksort_in : forall V (x : key * V) l, In x (ksort l) -> In x l.
+Proof.
+  intros V x l. induction l as [|h t IH]; cbn [ksort fold_right]; intro H; [exact H|].
+  apply kinsert_in in H. destruct H as [E|H]; [left; symmetry; exact E|right; apply IH; exact H].
+Qed.
+
+Lemma kl_cands_in : forall (L : kld) c q, In (c, q) (kl_cands L) -> In c (items L).
+Proof.
+  intros L c q H. unfold kl_cands in H. apply ksort_in in H. apply in_map_iff in H.
+  destruct H as [k [E Hk]]. injection E as E _. subst k. exact Hk.
+Qed.
+
+Section Runs.
+Variable g : graph.
+Hypothesis Hg : wfg g.
+Hypothesis Hnd : NoDup (gnodes g).
+Variable kind : model_kind.
+Variables tau gamma tmin : Q.
+Variable tmax : xtime.
+Variable full : bool.
+Hypothesis Htau : 0 <= tau.
+Hypothesis Hgamma : 0 <= gamma.
+
+Notation Inv := (Inv g).
+
+Definition stat_ok (st : node -> N) : Prop :=
+  match kind with
+  | SIR => forall x, st x = stS \/ st x = stI \/ st x = stR
+  | SIS => forall x, st x = stS \/ st x = stI
+  end.
+
+Definition cntst (st : node -> N) (a : N) : Z :=
+  Z.of_nat (length (filter (fun u => N.eqb (st u) a) (gnodes g))).
+Definition census (st : node -> N) : list Z :=
+  match kind with
+  | SIR => [cntst st stS; cntst st stI; cntst st stR]
+  | SIS => [cntst st stS; cntst st stI]
+  end.
+
+Definition move (c c' : list Z) : Prop :=
+  match kind with
+  | SIR => c' = [cnt c 0 + -1; cnt c 1 + 1; cnt c 2 + 0]%Z \/ c' = [cnt c 0 + 0; cnt c 1 + -1; cnt c 2 + 1]%Z
+  | SIS => c' = [cnt c 0 + -1; cnt c 1 + 1]%Z \/ c' = [cnt c 0 + 1; cnt c 1 + -1]%Z
+  end.
+
+Definition is_census (c : list Z) : Prop := exists st, stat_ok st /\ c = census st.
+
+(* chronological trajectories: first row at tmin; every later row at a time not
+   before the previous one and strictly before tmax, one legal move away from it;
+   every row is the census of some status map (so counts are >= 0 and sum to N) *)
+Inductive traj : list row -> Prop :=
+| traj_init : forall r, fst r == tmin -> is_census (snd r) -> traj [r]
+| traj_snoc : forall l r1 r2, traj (l ++ [r1]) -> fst r1 <= fst r2 -> xlt (fst r2) tmax = true ->
+    move (snd r1) (snd r2) -> is_census (snd r2) -> traj ((l ++ [r1]) ++ [r2]).
+
+Record GInv (s : gst) : Prop := {
+  g_inv : Inv s;
+  g_stat : stat_ok (stat s);
+  g_nodes : forall u, stat s u <> stS -> In u (gnodes g);
+  g_census : hd_counts (rows s) = census (stat s);
+  g_rows : rows s <> [];
+  g_traj : traj (rev (rows s))
+}.
+
+Lemma stat_ok_sis : kind = SIS -> forall st, stat_ok st -> sis_statuses st.
+Proof. intros E st H. unfold stat_ok in H. rewrite E in H. exact H. Qed.
+
+(* census after one node changes status *)
+Lemma filter_upd_len : forall (st : node -> N) u a b l, NoDup l -> st u = a -> a <> b ->
+  (length (filter (fun x => N.eqb (fupdN st u b x) a) l) =
+   length (filter (fun x => N.eqb (st x) a) l) - (if mem u l then 1 else 0))%nat /\
+  (length (filter (fun x => N.eqb (fupdN st u b x) b) l) =
+   length (filter (fun x => N.eqb (st x) b) l) + (if mem u l then 1 else 0))%nat /\
+  (forall c, c <> a -> c <> b ->
+   length (filter (fun x => N.eqb (fupdN st u b x) c) l) = length (filter (fun x => N.eqb (st x) c) l)) /\
+  ((if mem u l then 1 else 0) <= length (filter (fun x => N.eqb (st x) a) l))%nat.
+Proof.
+  intros st u a b l. induction l as [|y l IH]; intros Hn Ha Hab.
+  - cbn. repeat split; intros; try reflexivity; lia.
+  - apply NoDup_cons_iff in Hn. destruct Hn as [Hy Hn].
+    destruct (IH Hn Ha Hab) as [I1 [I2 [I3 I4]]].
+    cbn [filter mem existsb].
+    destruct (N.eqb_spec y u) as [E|E].
+    + subst y. assert (Hm : mem u l = false) by (apply mem_false; exact Hy).
+      rewrite !fupdN_same. rewrite N.eqb_refl. cbn [orb]. fold (mem u l). rewrite Hm in *.
+      rewrite Ha. rewrite !N.eqb_refl.
+      assert (Hba : N.eqb b a = false) by (apply N.eqb_neq; intro E; apply Hab; symmetry; exact E).
+      assert (Hab' : N.eqb a b = false) by (apply N.eqb_neq; exact Hab).
+      rewrite Hba, Hab'. cbn [length]. repeat split; try lia.
+      intros c Hca Hcb. assert (H1 : N.eqb b c = false) by (apply N.eqb_neq; intro E; apply Hcb; symmetry; exact E).
+      assert (H2 : N.eqb a c = false) by (apply N.eqb_neq; intro E; apply Hca; symmetry; exact E).
+      rewrite H1, H2. apply I3; assumption.
+    + assert (Huy : N.eqb u y = false) by (apply N.eqb_neq; intro E2; apply E; symmetry; exact E2).
+      rewrite Huy. cbn [orb]. rewrite !(fupdN_other st u b y E). fold (mem u l).
+      repeat split.
+      * destruct (N.eqb (st y) a); cbn [length]; [|exact I1].
+        rewrite I1. destruct (mem u l); lia.
+      * destruct (N.eqb (st y) b); cbn [length]; lia.
+      * intros c Hca Hcb. destruct (N.eqb (st y) c); cbn [length]; rewrite (I3 c Hca Hcb); reflexivity.
+      * destruct (N.eqb (st y) a); cbn [length]; lia.
+Qed.
+
+Lemma cntst_upd : forall st u a b, In u (gnodes g) -> st u = a -> a <> b ->
+  cntst (fupdN st u b) a = (cntst st a + -1)%Z /\
+  cntst (fupdN st u b) b = (cntst st b + 1)%Z /\
+  (forall c, c <> a -> c <> b -> cntst (fupdN st u b) c = (cntst st c + 0)%Z).
+Proof.
+  intros st u a b Hin Ha Hab. unfold cntst.
+  destruct (filter_upd_len st u a b (gnodes g) Hnd Ha Hab) as [I1 [I2 [I3 I4]]].
+  assert (Hm : mem u (gnodes g) = true) by (apply mem_In; exact Hin). rewrite Hm in *.
+  repeat split.
+  - rewrite I1. lia.
+  - rewrite I2. lia.
+  - intros c Hca Hcb. rewrite (I3 c Hca Hcb). lia.
+Qed.
+
+Hypothesis Hadj : forall u v, In v (gadj g u) -> In v (gnodes g).
+
+Lemma infs_member : forall s c, Inv s -> In c (items (infs s)) -> exists u, c = [u] /\ stat s u = stI.
+Proof.
+  intros s c HI Hin. apply (kl_items_abs (infs s) c (i_infs g s HI)) in Hin.
+  pose proof (i_ia g s HI c) as Ha.
+  destruct c as [|u [|b r]]; cbn [infs_spec] in Ha;
+    try (apply oQeq_none_l in Ha; contradiction).
+  exists u. split; [reflexivity|]. destruct (N.eqb_spec (stat s u) stI) as [E|E]; [exact E|].
+  apply oQeq_none_l in Ha. contradiction.
+Qed.
+
+Lemma links_member : forall s c, Inv s -> In c (items (links s)) ->
+  exists u v, c = [u; v] /\ stat s u = stI /\ stat s v = stS /\ In v (gadj g u).
+Proof.
+  intros s c HI Hin. apply (kl_items_abs (links s) c (i_links g s HI)) in Hin.
+  pose proof (i_la g s HI c) as Ha.
+  destruct c as [|u [|v [|w r]]]; cbn [links_spec] in Ha;
+    try (apply oQeq_none_l in Ha; contradiction).
+  exists u, v. split; [reflexivity|].
+  destruct (N.eqb_spec (stat s u) stI) as [E1|E1]; [|apply oQeq_none_l in Ha; contradiction].
+  destruct (N.eqb_spec (stat s v) stS) as [E2|E2]; [|apply oQeq_none_l in Ha; contradiction].
+  destruct (mem v (gadj g u)) eqn:E3; [|apply oQeq_none_l in Ha; contradiction].
+  repeat split; try assumption. apply mem_In. exact E3.
+Qed.
+
+Definition last_time (s : gst) : Q := match rows s with (t, _) :: _ => t | [] => tmin end.
+
+Lemma hd_rev_last : forall (l : list row) r, rev (r :: l) = rev l ++ [r].
+Proof. reflexivity. Qed.
+
+Lemma rev_nonempty_snoc : forall (l : list row), l <> [] -> exists l' r1, rev l = l' ++ [r1] /\ hd_error l = Some r1.
+Proof.
+  intros [|r l] H; [contradiction H; reflexivity|]. exists (rev l), r. split; reflexivity.
+Qed.
+
+Lemma stat_ok_upd : forall st u b, stat_ok st ->
+  (b = stI \/ (kind = SIR /\ b = stR) \/ (kind = SIS /\ b = stS)) -> stat_ok (fupdN st u b).
+Proof.
+  intros st u b H Hb. unfold stat_ok in *. destruct kind; intro x; unfold fupdN;
+    destruct (N.eqb x u); try apply H.
+  - destruct Hb as [E|[[_ E]|[E _]]]; [right; left; exact E|right; right; exact E|discriminate E].
+  - destruct Hb as [E|[[E _]|[_ E]]]; [right; exact E|discriminate E|left; exact E].
+Qed.
+
+(* the state after one event, given what the event did *)
+Lemma after_event : forall s s' t1 u a b,
+  GInv s -> last_time s <= t1 -> xlt t1 tmax = true ->
+  Inv s' -> stat s' = fupdN (stat s) u b -> stat s u = a -> a <> b -> In u (gnodes g) ->
+  b <> stS \/ True ->
+  (b = stI \/ (kind = SIR /\ b = stR) \/ (kind = SIS /\ b = stS)) ->
+  (exists c', rows s' = (t1, c') :: rows s /\ c' = census (stat s') /\ move (hd_counts (rows s)) c') ->
+  GInv s' /\ last_time s' = t1.
+Proof.
+  intros s s' t1 u a b HG Hlt Hx HI' Hst Ha Hab Hin _ Hb [c' [Hr [Hc Hm]]].
+  split; [|unfold last_time; rewrite Hr; reflexivity].
+  constructor.
+  - exact HI'.
+  - rewrite Hst. apply stat_ok_upd; [apply (g_stat s HG)|exact Hb].
+  - intros x Hx0. rewrite Hst in Hx0. unfold fupdN in Hx0. destruct (N.eqb_spec x u) as [E|E].
+    + subst x. exact Hin.
+    + apply (g_nodes s HG). exact Hx0.
+  - rewrite Hr. cbn [hd_counts]. exact Hc.
+  - rewrite Hr. discriminate.
+  - rewrite Hr, hd_rev_last.
+    destruct (rev_nonempty_snoc (rows s) (g_rows s HG)) as [l' [r1 [Hrev Hhd]]].
+    rewrite Hrev. apply traj_snoc.
+    + rewrite <- Hrev. apply (g_traj s HG).
+    + cbn [fst]. unfold last_time in Hlt. destruct (rows s) as [|[t0 c0] rs]; [discriminate Hhd|].
+      injection Hhd as Hhd. subst r1. exact Hlt.
+    + exact Hx.
+    + cbn [snd]. destruct (rows s) as [|[t0 c0] rs]; [discriminate Hhd|].
+      injection Hhd as Hhd. subst r1. exact Hm.
+    + cbn [snd]. exists (stat s'). split; [|exact Hc].
+      rewrite Hst. apply stat_ok_upd; [apply (g_stat s HG)|exact Hb].
+Qed.
+
+Lemma census_transmit : forall st v, stat_ok st -> In v (gnodes g) -> st v = stS ->
+  census (fupdN st v stI) =
+  match kind with
+  | SIR => [cnt (census st) 0 + -1; cnt (census st) 1 + 1; cnt (census st) 2 + 0]%Z
+  | SIS => [cnt (census st) 0 + -1; cnt (census st) 1 + 1]%Z
+  end.
+Proof.
+  intros st v Hok Hin Hv.
+  destruct (cntst_upd st v stS stI Hin Hv) as [A [B C]]; [discriminate|].
+  unfold census. destruct kind; cbn [cnt nth]; rewrite A, B; [|reflexivity].
+  rewrite (C stR); [reflexivity|discriminate|discriminate].
+Qed.
+
+Lemma census_recover_SIR : forall st u, kind = SIR -> In u (gnodes g) -> st u = stI ->
+  census (fupdN st u stR) = [cnt (census st) 0 + 0; cnt (census st) 1 + -1; cnt (census st) 2 + 1]%Z.
+Proof.
+  intros st u Hk Hin Hu.
+  destruct (cntst_upd st u stI stR Hin Hu) as [A [B C]]; [discriminate|].
+  unfold census. rewrite Hk. cbn [cnt nth]. rewrite A, B.
+  rewrite (C stS); [reflexivity|discriminate|discriminate].
+Qed.
+
+Lemma census_recover_SIS : forall st u, kind = SIS -> In u (gnodes g) -> st u = stI ->
+  census (fupdN st u stS) = [cnt (census st) 0 + 1; cnt (census st) 1 + -1]%Z.
+Proof.
+  intros st u Hk Hin Hu.
+  destruct (cntst_upd st u stI stS Hin Hu) as [A [B C]]; [discriminate|].
+  unfold census. rewrite Hk. cbn [cnt nth]. rewrite A, B. reflexivity.
+Qed.
+
+Lemma reach_liftr : forall A (r : result A) a, reach (liftr r) a -> r = Ok a.
+Proof. intros A [x|e] a H; cbn [liftr] in H; inversion H; subst; reflexivity. Qed.
+Lemma reach_err_liftr : forall A (r : result A) e, reach_err (liftr r) e -> r = Err e.
+Proof. intros A [x|e0] e H; cbn [liftr] in H; inversion H; subst; reflexivity. Qed.
+
+(* one jump from a good state: lands in a good state, cannot fail *)
+Lemma kinsert_not_nil : forall V (kv : key * V) l, kinsert kv l <> [].
+Proof. intros V kv [|h t]; cbn [kinsert]; [discriminate|]. destruct (kltb (fst kv) (fst h)); discriminate. Qed.
+Lemma kl_cands_nil : forall L : kld, kl_cands L = [] -> items L = [].
+Proof.
+  intros L H. unfold kl_cands in H. destruct (items L) as [|k t]; [reflexivity|].
+  cbn [map ksort fold_right] in H. exfalso. eapply kinsert_not_nil. exact H.
+Qed.
+Lemma empty_total : forall L : kld, kinv L -> items L = [] -> ld_total_weight key L == 0.
+Proof. intros L Hi He. rewrite (kl_total L Hi), He. reflexivity. Qed.
+
+Lemma event_reach : forall t1 trec ttot s,
+  GInv s -> last_time s <= t1 -> xlt t1 tmax = true ->
+  trec == total_rec gamma s -> ttot == trec + total_tr tau s -> 0 < ttot ->
+  (forall s', reach (event_st g kind full t1 trec ttot s) s' -> GInv s' /\ last_time s' = t1) /\
+  (forall e, ~ reach_err (event_st g kind full t1 trec ttot s) e).
+Proof.
+  intros t1 trec ttot s HG Hlt Hx Htrec Httot Hpos.
+  pose proof (g_inv s HG) as HI.
+  assert (Hrec : forall c q, In (c, q) (kl_cands (infs s)) ->
+            exists s', rbind (keynode c) (fun u =>
+                         match kind with SIR => sir_recover g full t1 u s | SIS => sis_recover g full t1 u s end) = Ok s'
+                       /\ GInv s' /\ last_time s' = t1).
+  { intros c q Hin. apply kl_cands_in in Hin. destruct (infs_member s c HI Hin) as [u [Ec Hu]]. subst c.
+    cbn [keynode rbind].
+    assert (Hun : In u (gnodes g)). { apply (g_nodes s HG). rewrite Hu. discriminate. }
+    destruct kind eqn:Ek.
+    - destruct (sir_recover_inv g Hg full t1 u s HI Hu) as [s' [He [HI' [Hst [Hr [_ _]]]]]].
+      exists s'. split; [exact He|].
+      eapply (after_event s s' t1 u stI stR); try eassumption; try discriminate.
+      + right. exact Logic.I.
+      + right. left. split; [exact Ek|reflexivity].
+      + eexists. split; [exact Hr|]. unfold push_row. rewrite (g_census s HG), Hst.
+        rewrite (census_recover_SIR (stat s) u Ek Hun Hu). split; [reflexivity|].
+        unfold move. rewrite Ek. right. reflexivity.
+    - destruct (sis_recover_inv g Hg full t1 u s HI Hu (stat_ok_sis Ek _ (g_stat s HG)))
+        as [s' [He [HI' [Hst [Hr [_ _]]]]]].
+      exists s'. split; [exact He|].
+      eapply (after_event s s' t1 u stI stS); try eassumption; try discriminate.
+      + right. exact Logic.I.
+      + right. right. split; [exact Ek|reflexivity].
+      + eexists. split; [exact Hr|]. unfold push_row2. rewrite (g_census s HG), Hst.
+        rewrite (census_recover_SIS (stat s) u Ek Hun Hu). split; [reflexivity|].
+        unfold move. rewrite Ek. right. reflexivity. }
+  assert (Htr : forall c q, In (c, q) (kl_cands (links s)) ->
+            exists s', rbind (keypair c) (fun uv => transmit g kind full t1 (fst uv) (snd uv) s) = Ok s'
+                       /\ GInv s' /\ last_time s' = t1).
+  { intros c q Hin. apply kl_cands_in in Hin.
+    destruct (links_member s c HI Hin) as [u [v [Ec [Hu [Hv Huv]]]]]. subst c.
+    cbn [keypair rbind fst snd].
+    assert (Hvn : In v (gnodes g)). { apply (Hadj u v Huv). }
+    destruct (transmit_inv g Hg kind full t1 u v s HI Hv (fun Ek => stat_ok_sis Ek _ (g_stat s HG)))
+      as [s' [He [HI' [Hst [Hr [_ _]]]]]].
+    exists s'. split; [exact He|].
+    eapply (after_event s s' t1 v stS stI); try eassumption; try discriminate.
+    - right. exact Logic.I.
+    - left. reflexivity.
+    - pose proof (census_transmit (stat s) v (g_stat s HG) Hvn Hv) as Hc.
+      unfold move. rewrite Hr, Hst, Hc. unfold push_row, push_row2. rewrite (g_census s HG).
+      destruct kind; eexists; (split; [reflexivity|]); (split; [reflexivity|left; reflexivity]). }
+  split.
+  - intros s' H. unfold event_st in H.
+    inversion H as [| |? ? ? ? Hp Hk|? ? ? ? Hp Hk| | | |]; subst;
+      inversion Hk as [| | | | |? ? ? c q ? Hin Hq Hk2| |]; subst.
+    + destruct (Hrec c q Hin) as [s2 [He [A B]]]. apply reach_liftr in Hk2.
+      rewrite He in Hk2. injection Hk2 as E. subst s2. split; assumption.
+    + destruct (Htr c q Hin) as [s2 [He [A B]]]. apply reach_liftr in Hk2.
+      rewrite He in Hk2. injection Hk2 as E. subst s2. split; assumption.
+  - intros e H. unfold event_st in H.
+    inversion H as [| | |? ? ? ? Hp Hk|? ? ? ? Hp Hk| | | | | | |]; subst.
+    + inversion Hk as [| | | | | |? ?|? ? ? c q ? Hin Hq Hk2| | | |]; subst.
+      * (* no candidate although the recovery odds are positive: impossible *)
+        exfalso. match goal with Hc : [] = kl_cands (infs s) |- _ => symmetry in Hc; apply kl_cands_nil in Hc;
+          pose proof (empty_total (infs s) (i_infs g s HI) Hc) as Hz end.
+        unfold total_rec in Htrec. rewrite Hz in Htrec.
+        assert (Hp0 : trec / ttot == 0). { rewrite Htrec. unfold Qdiv. ring. }
+        rewrite Hp0 in Hp. apply (Qlt_irrefl 0). exact Hp.
+      * destruct (Hrec c q Hin) as [s2 [He _]]. apply reach_err_liftr in Hk2. congruence.
+    + inversion Hk as [| | | | | |? ?|? ? ? c q ? Hin Hq Hk2| | | |]; subst.
+      * exfalso. match goal with Hc : [] = kl_cands (links s) |- _ => symmetry in Hc; apply kl_cands_nil in Hc;
+          pose proof (empty_total (links s) (i_links g s HI) Hc) as Hz end.
+        unfold total_tr in Httot. rewrite Hz in Httot.
+        assert (Ht : ttot == trec) by (rewrite Httot; ring).
+        assert (Hp1 : trec / ttot == 1).
+        { rewrite <- Ht. unfold Qdiv. apply Qmult_inv_r. intro E. rewrite E in Hpos. apply (Qlt_irrefl 0). exact Hpos. }
+        rewrite Hp1 in Hp. apply (Qlt_irrefl 1). exact Hp.
+      * destruct (Htr c q Hin) as [s2 [He _]]. apply reach_err_liftr in Hk2. congruence.
+Qed.
+
+Lemma loop_eq : forall fuel t s,
+  loop g kind tau gamma tmin tmax full fuel t s =
+  let trec := total_rec gamma s in
+  let ttot := trec + total_tr tau s in
+  if Qltb 0 ttot then
+    Expo ttot (fun d =>
+      let t1 := t + d in
+      if negb (is_empty (infs s)) && xlt t1 tmax then
+        match fuel with
+        | O => Fail OutOfFuel
+        | S f => event g kind full t1 trec ttot s (fun s' => loop g kind tau gamma tmin tmax full f t1 s')
+        end
+      else Ret (finish g kind tmin full s))
+  else Ret (finish g kind tmin full s).
+Proof. intros [|f] t s; reflexivity. Qed.
+
+(* where a run can stop *)
+Definition stopped (s : gst) : Prop :=
+  ~ 0 < total_rec gamma s + total_tr tau s \/ is_empty (infs s) = true \/ tmax <> None.
+
+Theorem loop_reach : forall fuel t s, GInv s -> last_time s <= t ->
+  (forall out, reach (loop g kind tau gamma tmin tmax full fuel t s) out ->
+     exists s', GInv s' /\ out = finish g kind tmin full s' /\ stopped s') /\
+  (forall e, reach_err (loop g kind tau gamma tmin tmax full fuel t s) e -> e = OutOfFuel).
+Proof.
+  induction fuel as [|f IH]; intros t s HG Hlt; rewrite loop_eq; cbv zeta;
+    destruct (Qltb 0 (total_rec gamma s + total_tr tau s)) eqn:Epos.
+  - apply Qltb_true in Epos. split.
+    + intros out H. inversion H as [|? ? d ? Hr Hd Hk| | | | | |]; subst.
+      destruct (negb (is_empty (infs s)) && xlt (t + d) tmax) eqn:Ec; [inversion Hk|].
+      inversion Hk; subst. exists s. split; [exact HG|]. split; [reflexivity|].
+      apply andb_false_iff in Ec. destruct Ec as [Ec|Ec].
+      * right. left. apply negb_false_iff. exact Ec.
+      * right. right. intro E. rewrite E in Ec. discriminate Ec.
+    + intros e H. inversion H as [|? ? Hr|? ? d ? Hr Hd Hk| | | | | | | | |]; subst.
+      * exfalso. rewrite Hr in Epos. apply (Qlt_irrefl 0). exact Epos.
+      * destruct (negb (is_empty (infs s)) && xlt (t + d) tmax) eqn:Ec; inversion Hk; subst. reflexivity.
+  - split.
+    + intros out H. inversion H; subst. exists s. split; [exact HG|]. split; [reflexivity|].
+      left. apply Qltb_false in Epos. intro E. apply (Qlt_irrefl 0). eapply Qlt_le_trans; eassumption.
+    + intros e H. inversion H.
+  - apply Qltb_true in Epos.
+    assert (Hstep : forall d, 0 <= d -> xlt (t + d) tmax = true ->
+      (forall s1, reach (event_st g kind full (t + d) (total_rec gamma s) (total_rec gamma s + total_tr tau s) s) s1 ->
+                  GInv s1 /\ last_time s1 = t + d) /\
+      (forall e, ~ reach_err (event_st g kind full (t + d) (total_rec gamma s) (total_rec gamma s + total_tr tau s) s) e)).
+    { intros d Hd Hx. apply event_reach; try assumption; try reflexivity.
+      eapply Qle_trans; [exact Hlt|]. rewrite <- (Qplus_0_r t) at 1. apply Qplus_le_r. exact Hd. }
+    split.
+    + intros out H. inversion H as [|? ? d ? Hr Hd Hk| | | | | |]; subst.
+      destruct (negb (is_empty (infs s)) && xlt (t + d) tmax) eqn:Ec.
+      * apply andb_true_iff in Ec. destruct Ec as [_ Hx].
+        unfold event in Hk. apply reach_bind in Hk. destruct Hk as [s1 [H1 H2]].
+        destruct (Hstep d Hd Hx) as [Hok _]. destruct (Hok s1 H1) as [HG1 Hl1].
+        destruct (IH (t + d) s1 HG1) as [IHr _]; [rewrite Hl1; apply Qle_refl|].
+        apply IHr. exact H2.
+      * inversion Hk; subst. exists s. split; [exact HG|]. split; [reflexivity|].
+        apply andb_false_iff in Ec. destruct Ec as [Ec|Ec].
+        -- right. left. apply negb_false_iff. exact Ec.
+        -- right. right. intro E. rewrite E in Ec. discriminate Ec.
+    + intros e H. inversion H as [|? ? Hr|? ? d ? Hr Hd Hk| | | | | | | | |]; subst.
+      * exfalso. rewrite Hr in Epos. apply (Qlt_irrefl 0). exact Epos.
+      * destruct (negb (is_empty (infs s)) && xlt (t + d) tmax) eqn:Ec; [|inversion Hk].
+        apply andb_true_iff in Ec. destruct Ec as [_ Hx].
+        unfold event in Hk. apply reach_err_bind in Hk. destruct (Hstep d Hd Hx) as [Hok Hne].
+        destruct Hk as [Hk|[s1 [H1 H2]]]; [exfalso; eapply Hne; exact Hk|].
+        destruct (Hok s1 H1) as [HG1 Hl1].
+        destruct (IH (t + d) s1 HG1) as [_ IHe]; [rewrite Hl1; apply Qle_refl|].
+        apply IHe. exact H2.
+  - split.
+    + intros out H. inversion H; subst. exists s. split; [exact HG|]. split; [reflexivity|].
+      left. apply Qltb_false in Epos. intro E. apply (Qlt_irrefl 0). eapply Qlt_le_trans; eassumption.
+    + intros e H. inversion H.
+Qed.
+
+(* ---- the initial state is good ---- *)
+Lemma count_mem : forall l G, NoDup l -> NoDup G -> incl l G ->
+  length (filter (fun u => mem u l) G) = length l.
+Proof.
+  intros l G Hl HG Hinc. apply Nat.le_antisymm.
+  - apply NoDup_incl_length; [apply NoDup_filter; exact HG|].
+    intros x Hx. apply filter_In in Hx. apply mem_In. apply Hx.
+  - apply NoDup_incl_length; [exact Hl|].
+    intros x Hx. apply filter_In. split; [apply Hinc; exact Hx|apply mem_In; exact Hx].
+Qed.
+
+Lemma st_init_R : forall i0 r0 x, N.eqb (st_init i0 r0 x) stR = mem x r0.
+Proof.
+  intros i0 r0 x. unfold st_init. destruct (in_dec N.eq_dec x r0) as [Hr|Hr].
+  - rewrite set_all_in by exact Hr. symmetry. apply mem_In. exact Hr.
+  - rewrite set_all_notin by exact Hr. assert (Hm : mem x r0 = false) by (apply mem_false; exact Hr).
+    rewrite Hm. destruct (in_dec N.eq_dec x i0) as [Hi|Hi].
+    + rewrite set_all_in by exact Hi. reflexivity.
+    + rewrite set_all_notin by exact Hi. reflexivity.
+Qed.
+
+Lemma st_init_values : forall i0 r0 x,
+  st_init i0 r0 x = stS \/ st_init i0 r0 x = stI \/ st_init i0 r0 x = stR.
+Proof.
+  intros i0 r0 x. unfold st_init. destruct (in_dec N.eq_dec x r0) as [Hr|Hr].
+  - right. right. apply set_all_in. exact Hr.
+  - rewrite set_all_notin by exact Hr. destruct (in_dec N.eq_dec x i0) as [Hi|Hi].
+    + right. left. apply set_all_in. exact Hi.
+    + left. apply set_all_notin. exact Hi.
+Qed.
+
+Lemma partition3 : forall (st : node -> N) G, (forall x, st x = stS \/ st x = stI \/ st x = stR) ->
+  (length G = length (filter (fun u => N.eqb (st u) stS) G) + length (filter (fun u => N.eqb (st u) stI) G)
+              + length (filter (fun u => N.eqb (st u) stR) G))%nat.
+Proof.
+  intros st G H. induction G as [|y G IH]; [reflexivity|]. cbn [filter length].
+  destruct (H y) as [E|[E|E]]; rewrite E; cbn; lia.
+Qed.
+
+Lemma partition2 : forall (st : node -> N) G, (forall x, st x = stS \/ st x = stI) ->
+  (length G = length (filter (fun u => N.eqb (st u) stS) G) + length (filter (fun u => N.eqb (st u) stI) G))%nat.
+Proof.
+  intros st G H. induction G as [|y G IH]; [reflexivity|]. cbn [filter length].
+  destruct (H y) as [E|E]; rewrite E; cbn; lia.
+Qed.
+
+Lemma filter_ext_len : forall (f h : node -> bool) G, (forall x, f x = h x) ->
+  length (filter f G) = length (filter h G).
+Proof. intros f h G H. rewrite (filter_ext f h H). reflexivity. Qed.
+
+Lemma init_ginv : forall i0 r0 el tl,
+  NoDup i0 -> NoDup r0 -> incl i0 (gnodes g) -> incl r0 (gnodes g) ->
+  (forall y, In y i0 -> ~ In y r0) -> (kind = SIS -> r0 = []) ->
+  exists I L : kld, init_sets g (st_init i0 r0) i0 = Ok (I, L) /\
+    GInv (mkG (st_init i0 r0) I L
+              (match kind with
+               | SIR => [(tmin, [order g - Z.of_nat (length i0) - Z.of_nat (length r0); Z.of_nat (length i0); Z.of_nat (length r0)]%Z)]
+               | SIS => [(tmin, [order g - Z.of_nat (length i0); Z.of_nat (length i0)]%Z)]
+               end) el tl).
+Proof.
+  intros i0 r0 el tl Hi Hr Hii Hri Hdis Hsis.
+  destruct (init_inv g Hg i0 r0 Hi Hdis) as [I [L [He HInv]]].
+  exists I, L. split; [exact He|].
+  assert (HcI : cntst (st_init i0 r0) stI = Z.of_nat (length i0)).
+  { unfold cntst. f_equal. rewrite <- (count_mem i0 (gnodes g) Hi Hnd Hii).
+    apply filter_ext_len. intro x. apply st_init_I. exact Hdis. }
+  assert (HcR : cntst (st_init i0 r0) stR = Z.of_nat (length r0)).
+  { unfold cntst. f_equal. rewrite <- (count_mem r0 (gnodes g) Hr Hnd Hri).
+    apply filter_ext_len. intro x. apply st_init_R. }
+  assert (HcS : cntst (st_init i0 r0) stS = (order g - Z.of_nat (length i0) - Z.of_nat (length r0))%Z).
+  { pose proof (partition3 (st_init i0 r0) (gnodes g) (st_init_values i0 r0)) as Hp.
+    unfold order. unfold cntst in *. lia. }
+  assert (Hok : stat_ok (st_init i0 r0)).
+  { unfold stat_ok. destruct kind eqn:Ek; intro x.
+    - apply st_init_values.
+    - rewrite (Hsis eq_refl). destruct (st_init_values i0 [] x) as [E|[E|E]]; [left; exact E|right; exact E|].
+      exfalso. pose proof (st_init_R i0 [] x) as HR. rewrite E in HR. discriminate HR. }
+  assert (Hcen : hd_counts (match kind with
+               | SIR => [(tmin, [order g - Z.of_nat (length i0) - Z.of_nat (length r0); Z.of_nat (length i0); Z.of_nat (length r0)]%Z)]
+               | SIS => [(tmin, [order g - Z.of_nat (length i0); Z.of_nat (length i0)]%Z)]
+               end) = census (st_init i0 r0)).
+  { unfold census. destruct kind eqn:Ek; cbn [hd_counts]; rewrite HcS, HcI; [rewrite HcR; reflexivity|].
+    rewrite (Hsis eq_refl). cbn [length]. f_equal. lia. }
+  constructor; cbn [stat infs links rows].
+  - apply HInv.
+  - exact Hok.
+  - intros u Hu. destruct (in_dec N.eq_dec u r0) as [H1|H1]; [apply Hri; exact H1|].
+    destruct (in_dec N.eq_dec u i0) as [H2|H2]; [apply Hii; exact H2|].
+    exfalso. apply Hu. unfold st_init. rewrite set_all_notin by exact H1. apply set_all_notin. exact H2.
+  - exact Hcen.
+  - destruct kind; discriminate.
+  - assert (Hone : forall r, traj (rev [r]) <-> traj [r]) by (intro r; reflexivity).
+    destruct kind eqn:Ek; apply traj_init; cbn [fst snd]; try reflexivity;
+      exists (st_init i0 r0); (split; [exact Hok|]); rewrite <- Hcen; reflexivity.
+Qed.
+
+(* ---- reading [traj] ---- *)
+Lemma app_snoc_inv : forall (A : Type) (l1 l2 : list A) a b, l1 ++ [a] = l2 ++ [b] -> l1 = l2 /\ a = b.
+Proof. intros A l1 l2 a b H. apply app_inj_tail in H. exact H. Qed.
+
+Lemma traj_first : forall l, traj l -> exists r l', l = r :: l' /\ fst r == tmin.
+Proof.
+  intros l H. induction H as [r Hr Hc|l r1 r2 H IH Hle Hx Hm Hc].
+  - exists r, []. split; [reflexivity|exact Hr].
+  - destruct IH as [r [l' [E Hr]]]. rewrite E. exists r, (l' ++ [r2]). split; [reflexivity|exact Hr].
+Qed.
+
+Lemma traj_census : forall l, traj l -> forall r, In r l -> is_census (snd r).
+Proof.
+  intros l H. induction H as [r0 Hr Hc|l r1 r2 H IH Hle Hx Hm Hc]; intros r Hin.
+  - destruct Hin as [E|[]]. subst r. exact Hc.
+  - apply in_app_or in Hin. destruct Hin as [Hin|[E|[]]]; [apply IH; exact Hin|subst r; exact Hc].
+Qed.
+
+Lemma traj_adjacent : forall l, traj l -> forall l1 a b l2, l = l1 ++ a :: b :: l2 ->
+  fst a <= fst b /\ xlt (fst b) tmax = true /\ move (snd a) (snd b).
+Proof.
+  intros l H. induction H as [r0 Hr Hc|l r1 r2 H IH Hle Hx Hm Hc]; intros l1 a b l2 E.
+  - destruct l1 as [|x [|y l1]]; discriminate E.
+  - destruct l2 as [|z0 l2x] eqn:E2.
+    + change (l1 ++ [a; b]) with (l1 ++ [a] ++ [b]) in E. rewrite app_assoc in E.
+      apply app_snoc_inv in E. destruct E as [E1 Eb]. subst b.
+      apply app_snoc_inv in E1. destruct E1 as [_ Ea]. subst a. repeat split; assumption.
+    + assert (E3 : z0 :: l2x <> []) by discriminate. destruct (exists_last E3) as [l2' [z Ez]]. rewrite Ez in E.
+      change (l1 ++ a :: b :: l2' ++ [z]) with (l1 ++ (a :: b :: l2') ++ [z]) in E.
+      rewrite app_assoc in E. apply app_snoc_inv in E. destruct E as [E1 _].
+      apply (IH l1 a b l2'). exact E1.
+Qed.
+
+Lemma census_counts : forall c, is_census c ->
+  Forall (fun x => (0 <= x)%Z) c /\ sumZ c = order g /\ length c = match kind with SIR => 3%nat | SIS => 2%nat end.
+Proof.
+  intros c [st [Hok E]]. subst c. unfold census, stat_ok in *. destruct kind.
+  - split; [repeat (apply Forall_cons; [unfold cntst; lia|]); apply Forall_nil|]. split; [|reflexivity].
+    pose proof (partition3 st (gnodes g) Hok) as Hp. unfold sumZ, order, cntst. cbn [fold_right]. lia.
+  - split; [repeat (apply Forall_cons; [unfold cntst; lia|]); apply Forall_nil|]. split; [|reflexivity].
+    pose proof (partition2 st (gnodes g) Hok) as Hp.
+    unfold sumZ, order, cntst. cbn [fold_right]. lia.
+Qed.
+
+(* ---- the whole simulator, explicit initial sets ---- *)
+Definition r0_list (r0 : option (list node)) : list node :=
+  match kind, r0 with SIR, Some l => l | _, _ => [] end.
+
+Definition wf_init (i0 : list node) (r0 : option (list node)) : Prop :=
+  NoDup i0 /\ NoDup (r0_list r0) /\ incl i0 (gnodes g) /\ incl (r0_list r0) (gnodes g) /\
+  (forall y, In y i0 -> ~ In y (r0_list r0)).
+
+Theorem gillespie_reach : forall i0 r0 fuel, wf_init i0 r0 ->
+  (forall out, reach (gillespie g kind tau gamma (Some i0) r0 None tmin tmax full fuel) out ->
+     exists s', GInv s' /\ out = finish g kind tmin full s' /\ stopped s') /\
+  (forall e, reach_err (gillespie g kind tau gamma (Some i0) r0 None tmin tmax full fuel) e -> e = OutOfFuel).
+Proof.
+  intros i0 r0 fuel [Hi [Hr [Hii [Hri Hdis]]]].
+  assert (Hsis : kind = SIS -> r0_list r0 = []). { intro E. unfold r0_list. rewrite E. reflexivity. }
+  unfold gillespie. cbv zeta. fold (r0_list r0). fold (st_init i0 (r0_list r0)).
+  destruct (init_ginv i0 (r0_list r0)
+              (if full then rev (map (fun u => (tmin, u, stI)) i0 ++ map (fun u => (tmin, u, stR)) (r0_list r0)) else [])
+              (if full then rev (map (fun u => (tmin, None, u)) i0) else [])
+              Hi Hr Hii Hri Hdis Hsis) as [I [L [He HG]]].
+  rewrite He. cbn [lift fst snd].
+  apply loop_reach; [exact HG|]. unfold last_time. cbn [rows]. destruct kind; apply Qle_refl.
+Qed.
+
+Theorem gillespie_exec_traj : forall i0 r0 fuel ds out tr, wf_init i0 r0 ->
+  exec (gillespie g kind tau gamma (Some i0) r0 None tmin tmax full fuel) ds [] = (Ok out, tr) ->
+  traj (so_rows out).
+Proof.
+  intros i0 r0 fuel ds out tr Hwf H. apply exec_reach in H.
+  destruct (gillespie_reach i0 r0 fuel Hwf) as [Hr _]. destruct (Hr out H) as [s' [HG [E _]]].
+  subst out. unfold finish. cbn [so_rows]. apply (g_traj s' HG).
+Qed.
+
+Theorem gillespie_exec_no_crash : forall i0 r0 fuel ds e tr, wf_init i0 r0 ->
+  exec (gillespie g kind tau gamma (Some i0) r0 None tmin tmax full fuel) ds [] = (Err e, tr) ->
+  e = OutOfDraws \/ e = OutOfFuel.
+Proof.
+  intros i0 r0 fuel ds e tr Hwf H. apply exec_reach_err in H. destruct H as [H|H]; [left; exact H|right].
+  destruct (gillespie_reach i0 r0 fuel Hwf) as [_ He]. apply He. exact H.
+Qed.
+
+End Runs.
